@@ -775,3 +775,40 @@ def attributes_of(text, noped=False):
         for p in preds:
             flags.append(f"HEX_IL_INSN_ATTR_WRITE_P{p}")
     return flags or ["HEX_IL_INSN_ATTR_NONE"]
+
+
+def _operand_name(x):
+    if x[0] == 'reg':
+        return x[1] + x[2] + ('_new' if x[3] else '')
+    if x[0] == 'imm':
+        return x[1]
+    if x[0] == 'id':
+        return x[1]
+    if x[0] == 'xreg':
+        return x[1].replace(':', '_') + ('_new' if x[2] else '')
+    if x[0] == 'alias':
+        return x[1].lower() + ('_new' if x[2] else '')
+    return None
+
+
+def live_operand_names(ast):
+    """operand names that occur outside the unevaluated contexts (arms of constant-condition ?:, sizeof operands)"""
+    out = set()
+
+    def walk(t):
+        if not isinstance(t, tuple) or not t:
+            return
+        if t[0] == 'cond' and is_constant_expr(t[1]):
+            return  # which arm is live is not decided here: conservative (neither counts as live)
+        if t[0] == 'call' and t[1] == 'sizeof':
+            return
+        if t[0] in ('reg', 'imm', 'id', 'xreg', 'alias'):
+            n = _operand_name(t)
+            if n:
+                out.add(n)
+            return
+        for x in t[1:]:
+            walk(x)
+
+    walk(ast)
+    return out
